@@ -179,3 +179,19 @@ package server
 //@   requires request != nil && reqOK(s) && s.cluster != nil && wfCluster(s.cluster)
 //@   at HandleStoreHeartbeat 1 assert [not-tombstone] last("checkStore") > 0 && lastint("checkStore") == 0
 //@   modifies *
+
+// ---- C05: the SyncMaxTS handler (what a local allocator leader answers to the global allocator) ----
+// Check phase: the write phase is entered only when the largest local timestamp is STRICTLY below the proposed
+// maximum (second CompareTimestamp < 0). With equal values the handler must answer with the local value plus one -
+// otherwise the global timestamp, differentiated with suffix 0, would come out below a local one that was already
+// handed out. (The allocators' own contracts are used without their preconditions here: only the frame of
+// GetCurrentTSO / WriteTSO is taken, so nothing is assumed about what the allocators return.)
+//@ func (*Server).validateInternalRequest
+//@   assumed
+//@   modifies nothing
+//@ func (*Server).SyncMaxTS
+//@   props C05
+//@   requires s != nil && request != nil
+//@   ensures [write-phase-only-when-every-local-is-strictly-below] r1 == nil && !old(request.SkipCheck) && r0 != nil && r0.MaxLocalTs == nil ==> callres("CompareTimestamp", 2) == 0 - 1
+//@   ensures [a-local-at-or-above-is-reported] r1 == nil && !old(request.SkipCheck) && r0 != nil && r0.MaxLocalTs != nil ==> callres("CompareTimestamp", 2) >= 0
+//@   modifies *
